@@ -1,20 +1,78 @@
 """C19 - shallow groundwater (two structural clauses)."""
 from __future__ import annotations
 import ast
+import re
 from ..cp import batch, is_zero, row_writers
 from ..common import STEP_FN, step_roles
 from ..effects import stores
-from ..rdef import flow_of
-from ..model import norm
+from ..rdef import flow_of, ENTRY
+from ..model import norm, walk_no_nested
 
 EXPLANATION = (
     "C19.a: interprocedural constant propagation of the daily step with water_table=0: check_groundwater_table returns "
     "(th_fc_Adj, None, None), capillary_rise returns 0, wt_in_soil is None so groundwater_inflow returns 0; the constants "
     "reach the CR and GwIn columns, in and out of season. C19.b: groundwater_inflow is the last writer of the water "
     "content in the step: no statement after its call stores STATE.th (rebinding or in place), so compartments it "
-    "saturates stay saturated at the end of the day (effect summaries over access paths + CFG order). NOT decided: range "
+    "saturates stay saturated at the end of the day (effect summaries over access paths + CFG order). C19.c: its loop runs from "
+    "the first compartment whose centre is at or below the table to the bottom of the profile and sets each cell to the "
+    "saturation value of that same compartment (index agreement through temporaries). NOT decided: range "
     "of adjusted field capacity, capillary-rise limit, interpolation of observations, equivalence of a very deep table "
     "with none (numeric).")
+
+
+def rule_c(chk, prog):
+    """groundwater_inflow saturates every compartment from the first one whose centre is below the table down to the
+    bottom, each with the saturation value of that same compartment"""
+    from .c03 import _resolve_bound
+    gw = prog.find_func("groundwater_inflow")
+    chk.fn(gw.key)
+    flow = flow_of(gw)
+    where = f"{gw.module}:{gw.qualname}"
+    roles = step_roles(prog)
+    loops = [n for n in walk_no_nested(gw.node) if isinstance(n, ast.For)]
+    if len(loops) != 1:
+        chk.violation("C19.c", where, "for ii in range(idx, len(prof.Comp))", f"expected one loop over the compartments below the table, found {len(loops)}", loc=gw.loc())
+        return
+    lp = loops[0]
+    it = lp.iter
+    ok_range = isinstance(it, ast.Call) and isinstance(it.func, ast.Name) and it.func.id == "range" and len(it.args) == 2
+    start_ok = end_ok = False
+    if ok_range:
+        st_e, en_e = it.args
+        # start: first index with zMid >= z_gw
+        src = st_e
+        if isinstance(st_e, ast.Name):
+            nid = flow.node_of(st_e)
+            ds = flow.defs_reaching(st_e.id, nid)
+            if len(ds) == 1 and ds[0] != ENTRY and isinstance(flow.cfg.nodes[ds[0]].ast, ast.Assign):
+                src = flow.cfg.nodes[ds[0]].ast.value
+        t = norm(src)
+        start_ok = "argwhere" in t and ">=" in t and t.endswith(".flatten()[0]") and "zMid" in t.replace("prof.", "")
+        if not start_ok and "argwhere" in t:
+            # zMid through a local
+            start_ok = bool(re.search(r"argwhere\(\w+ >= \w+\)\.flatten\(\)\[0\]", t))
+        end_ok = bool(re.fullmatch(r"len\(\w+\.Comp\)", norm(en_e)))
+    construct = f"for {norm(lp.target)} in {norm(it)}"
+    if ok_range and start_ok and end_ok:
+        chk.ok("C19.c", where, construct, "from the first compartment whose centre is at or below the table to the bottom of the profile")
+    else:
+        chk.violation("C19.c", where, construct, "the loop does not cover every compartment whose centre lies below the water table", loc=gw.loc(lp))
+    # stores in the loop: cell[i] = th_s[i]
+    n = 0
+    for a in ast.walk(lp):
+        if isinstance(a, ast.Assign) and isinstance(a.targets[0], ast.Subscript) and any(p_.startswith("STATE.th") for p_ in roles.paths(gw, a.targets[0].value)):
+            n += 1
+            cell_idx = norm(a.targets[0].slice)
+            nid = flow.stmt_node.get(id(a))
+            rb = _resolve_bound(gw, flow, a.value, nid)
+            construct = norm(a)
+            if rb and rb[0] == "th_s" and rb[1] == cell_idx:
+                chk.ok("C19.c", where, construct, "set to the saturation of the same compartment")
+            else:
+                chk.violation("C19.c", where, construct,
+                              f"a compartment below the water table is set to {('%s[%s]' % rb) if rb else norm(a.value)}, not to its own saturation "
+                              f"th_s[{cell_idx}]: it does not end the day saturated (or ends above saturation)", loc=gw.loc(a))
+    chk.floor("C19.c", n, 1, "stores to the water content in groundwater_inflow")
 
 
 def run(chk, prog, tier):
@@ -101,6 +159,7 @@ def run(chk, prog, tier):
                         else:
                             chk.ok("C19.b", STEP_FN, construct, "no store to STATE.th in the callee or its callees")
     chk.floor("C19.b", n_checked, 8, "statements / calls after groundwater_inflow examined")
+    rule_c(chk, prog)
     chk.assume("A-1")
     chk.assume("A-10")
     chk.exhaustive = True
